@@ -98,7 +98,7 @@ _sub_fullpath.add(r"\[\^?\]?(?:[^\]\[]|\[:[^\]]+:\])+\]", _sub_group)  # char gr
 _sub_fullpath.add(r"(?:(?<=/)|^)(?:\.?/)+", "")  # canonicalize path
 _sub_fullpath.add(r"\\.", r"\&")  # keep anything backslashed
 _sub_fullpath.add(r"[(){}|^$+.]", r"\\&")  # escape specials
-_sub_fullpath.add(r"(?:(?<=/)|^)\*\*+/", r"(?:.*/)?")  # **/ after ^ or /
+_sub_fullpath.add(r"(?:(?<=/)|^)\*\*+/", r"(?s:.*/)?")  # **/ after ^ or /
 _sub_fullpath.add(r"\*+", r"[^/]*")  # * elsewhere
 _sub_fullpath.add(r"\?", r"[^/]")  # ? everywhere
 
@@ -107,8 +107,8 @@ _sub_basename = Replacer()
 _sub_basename.add(r"\[\^?\]?(?:[^\]\[]|\[:[^\]]+:\])+\]", _sub_group)  # char group
 _sub_basename.add(r"\\.", r"\&")  # keep anything backslashed
 _sub_basename.add(r"[(){}|^$+.]", r"\\&")  # escape specials
-_sub_basename.add(r"\*+", r".*")  # * everywhere
-_sub_basename.add(r"\?", r".")  # ? everywhere
+_sub_basename.add(r"\*+", r"(?s:.*)")  # * everywhere
+_sub_basename.add(r"\?", r"(?s:.)")  # ? everywhere
 
 
 def _sub_extension(pattern):
@@ -150,9 +150,9 @@ class Globster:
     pattern_info = {
         "extension": {
             "translator": _sub_extension,
-            "prefix": r"(?:.*/)?(?!.*/)(?:.*\.)",
+            "prefix": r"(?s:(?:.*/)?(?!.*/)(?:.*\.))",
         },
-        "basename": {"translator": _sub_basename, "prefix": r"(?:.*/)?(?!.*/)"},
+        "basename": {"translator": _sub_basename, "prefix": r"(?s:(?:.*/)?(?!.*/))"},
         "fullpath": {"translator": _sub_fullpath, "prefix": r""},
     }
 
@@ -178,7 +178,7 @@ class Globster:
     def _add_patterns(self, patterns, translator, prefix=""):
         while patterns:
             grouped_rules = [f"({translator(pat)})" for pat in patterns[:99]]
-            joined_rule = f"{prefix}(?:{'|'.join(grouped_rules)})$"
+            joined_rule = f"{prefix}(?:{'|'.join(grouped_rules)})\\Z"
             # Explicitly use lazy_compile here, because we count on its
             # nicer error reporting.
             self._regex_patterns.append(
